@@ -3,7 +3,7 @@
 independent confirmation (/tmp/confirm/results/<id>.json, tools/confirm_mutant.sh) succeeded. caught_by is filled by
 tools/mutant_matrix.sh (results in /tmp/confirm/matrix/<id>.<PROP>.rc)."""
 import glob, json, os, re, shutil
-ALL_INCS = [("/verif/seeded/_incoming", "", 1), ("/verif/seeded/_incoming2", "b", 2), ("/verif/seeded/_incoming3", "c", 3), ("/verif/seeded/_incoming4", "d", 4), ("/verif/seeded/_incoming5", "e", 5), ("/verif/seeded/_incoming6", "f", 6), ("/verif/seeded/_incoming7", "g", 7)]
+ALL_INCS = [("/verif/seeded/_incoming", "", 1), ("/verif/seeded/_incoming2", "b", 2), ("/verif/seeded/_incoming3", "c", 3), ("/verif/seeded/_incoming4", "d", 4), ("/verif/seeded/_incoming5", "e", 5), ("/verif/seeded/_incoming6", "f", 6), ("/verif/seeded/_incoming7", "g", 7), ("/verif/seeded/_incoming8", "h", 8)]
 # only the rounds named in ROUNDS (default: the latest) are (re)built: the confirmation results of earlier rounds lived in /tmp
 INCS = [x for x in ALL_INCS if str(x[2]) in os.environ.get("ROUNDS", "6").split(",")]
 NEEDS = {
